@@ -86,6 +86,25 @@ theorem removed_credential_revokes_in_same_change (e : Entry) (md : Mod) (ct cid
     rw [plugin_keeps_credentials, hc] at this
     exact absurd this hgone
 
+/-- **Replace = remove.** A committed change of the primary credential (password change, TOTP
+added or removed, backup codes regenerated or removed) gives the credential a fresh id, so every
+login session issued with the old primary credential is revoked by that commit.  `old` is not
+one of the account's other credential ids and `fresh` is new (uuids are unique). -/
+theorem changed_primary_revokes_its_sessions (e : Entry) (old fresh ct cid : Nat)
+    (hp : e.primary = some old) (hfresh : fresh ≠ old)
+    (hother : old ∉ e.passkeys ∧ old ∉ e.attested ∧ e.oauth2Cred ≠ some old)
+    (k : Nat) (s : Sess) (h : UatAt (step e (.write (.updatePrimary fresh) ct cid)) k s)
+    (hc : credOf s = old) : ∃ c', s.state = .revokedAt c' := by
+  refine removed_credential_revokes_in_same_change e (.updatePrimary fresh) ct cid old ?_ k s h hc
+  have hrot : credUpdateRotatesId = true := by decide
+  intro hh
+  simp only [HasCred, applyMod, hp, hrot, if_true, Option.some.injEq] at hh
+  rcases hh with h1 | h1 | h1 | h1
+  · exact hfresh h1
+  · exact hother.1 h1
+  · exact hother.2.1 h1
+  · exact hother.2.2 h1
+
 theorem uatAt_applyMod {e : Entry} {k : Nat} {s : Sess} (cid : Nat) (md : Mod) (h : UatAt e k s) :
     ∃ s', UatAt (applyMod cid e md) k s' ∧ (s' = s ∨ s' = revoke cid s) := by
   obtain ⟨m, hm, hmem⟩ := h
@@ -108,6 +127,7 @@ theorem uatAt_applyMod {e : Entry} {k : Nat} {s : Sess} (cid : Nat) (md : Mod) (
     exact ⟨revoke cid s, ⟨revokeAll cid m, by simp [applyMod, hm],
       by unfold revokeAll; exact List.mem_map.mpr ⟨(k, s), hmem, rfl⟩⟩, Or.inr rfl⟩
   | setPrimary _ => exact ⟨s, ⟨m, hm, hmem⟩, Or.inl rfl⟩
+  | updatePrimary _ => exact ⟨s, ⟨m, hm, hmem⟩, Or.inl rfl⟩
   | addPasskey _ => exact ⟨s, ⟨m, hm, hmem⟩, Or.inl rfl⟩
   | delPasskey _ => exact ⟨s, ⟨m, hm, hmem⟩, Or.inl rfl⟩
   | addAttested _ => exact ⟨s, ⟨m, hm, hmem⟩, Or.inl rfl⟩
@@ -174,13 +194,21 @@ theorem healthy_oauth2_untouched (e : Entry) (ct cid k : Nat) (o : Sess) (h : (k
   have := mem_mapVals_of_mem (f := o2Post (plugin ct cid e).uats ct cid) h
   rwa [o2Post_healthy hx (by rwa [graceWindow_eq])] at this
 
+/-- Not revoked and not past its expiry at `ct` (what `session_state_live` tests since fix
+dd5d9e6: an expired session is refused like a revoked one). -/
+def LiveAt (ct : Nat) (s : Sess) : Prop := Live s ∧ ∀ exp, s.state = .expiresAt exp → ct < exp
+
+theorem chkStateLive_iff (ct : Nat) (s : Sess) : chkStateLive ct s.state = true ↔ LiveAt ct s := by
+  unfold LiveAt Live chkStateLive chkLiveRevoked chkLiveExpires chkLiveNever
+  cases s.state <;> simp [isRevoked]
+
 /-- The exact condition under which `check_oauth2_account_uuid_valid` lets a token through. -/
 theorem o2Check_true_iff (e : Entry) (sid : Nat) (parent : Option Nat) (iat ct : Nat) :
     o2Check e sid parent iat ct = true ↔
       withinWindow e ct = true ∧
-      ((∃ o, lookup e.o2s sid = some o ∧ Live o ∧
+      ((∃ o, lookup e.o2s sid = some o ∧ LiveAt ct o ∧
           ∀ p, parent = some p →
-            (∃ u, e.uats.bind (fun m => lookup m p) = some u ∧ Live u) ∨
+            (∃ u, e.uats.bind (fun m => lookup m p) = some u ∧ LiveAt ct u) ∨
             (e.uats.bind (fun m => lookup m p) = none ∧
               (p ∈ e.apis ∨ ct < iat * 1000000000 + fiveMinutes))) ∨
        (lookup e.o2s sid = none ∧ ct < iat * 1000000000 + fiveMinutes)) := by
@@ -193,22 +221,29 @@ theorem o2Check_true_iff (e : Entry) (sid : Nat) (parent : Option Nat) (iat ct :
   · cases ho : lookup e.o2s sid with
     | none => simp
     | some o =>
-      cases hr : isRevoked o.state
-      · cases parent with
-        | none => simp [Live, hr]
+      have hol := chkStateLive_iff ct o
+      cases hr : chkStateLive ct o.state
+      · have hno : ¬ LiveAt ct o := by rw [← hol, hr]; simp
+        simp [hno, hr]
+      · have hlo : LiveAt ct o := hol.mp hr
+        cases parent with
+        | none => simp [hlo, hr]
         | some p =>
           cases hu : e.uats.bind (fun m => lookup m p) with
           | none =>
             simp only [Option.some.injEq, forall_eq', hu]
             by_cases ha : p ∈ e.apis
-            · simp [Live, hr, ha]
+            · simp [hlo, hr, ha]
             · by_cases hg : ct < iat * 1000000000 + fiveMinutes
-              · simp [Live, hr, ha, hg]
-              · simp [Live, hr, ha, hg]
+              · simp [hlo, hr, ha, hg]
+              · simp [hr, ha, hg]
           | some u =>
             simp only [Option.some.injEq, forall_eq', hu]
-            cases hur : isRevoked u.state <;> simp [Live, hr, hur]
-      · simp [Live, hr]
+            have hul := chkStateLive_iff ct u
+            cases hur : chkStateLive ct u.state
+            · have hnu : ¬ LiveAt ct u := by rw [← hul, hur]; simp
+              simp [hr, hnu]
+            · simp [hlo, hr, hul.mp hur]
 
 /-- **The property, second half.** Once five minutes have passed since the token was issued, an
 OAuth2 token whose parent login session is revoked or missing (and is not an api token of the
@@ -223,7 +258,7 @@ theorem orphan_oauth2_unusable_after_grace (e : Entry) (sid p iat ct : Nat)
   | true =>
     obtain ⟨_, ⟨o, _, _, hp⟩ | ⟨_, hg⟩⟩ := (o2Check_true_iff e sid (some p) iat ct).mp h
     · rcases hp p rfl with ⟨u, hu, hl⟩ | ⟨_, ha | hg⟩
-      · exact absurd hl (horphan u hu)
+      · exact absurd hl.1 (horphan u hu)
       · exact absurd ha hapi
       · omega
     · omega
@@ -239,7 +274,7 @@ theorem revoked_parent_unusable_at_once (e : Entry) (sid p iat ct c : Nat) (m : 
     obtain ⟨u0, hu0, hr0⟩ := hp
     obtain ⟨_, ⟨o', _, _, hpp⟩ | ⟨hn, _⟩⟩ := (o2Check_true_iff e sid (some p) iat ct).mp h
     · rcases hpp p rfl with ⟨u, hu, hl⟩ | ⟨hu, _⟩
-      · simp [hm, hu0] at hu; subst hu; simp [Live, hr0, isRevoked] at hl
+      · simp [hm, hu0] at hu; subst hu; simp [LiveAt, Live, hr0, isRevoked] at hl
       · simp [hm, hu0] at hu
     · rw [ho] at hn; cases hn
 
@@ -250,8 +285,25 @@ theorem revoked_oauth2_session_refused (e : Entry) (sid iat ct c : Nat) (parent 
   | true =>
     obtain ⟨o0, ho0, hr0⟩ := h
     obtain ⟨_, ⟨o, ho, hl, _⟩ | ⟨hn, _⟩⟩ := (o2Check_true_iff e sid parent iat ct).mp hc
-    · rw [ho0] at ho; cases ho; simp [Live, hr0, isRevoked] at hl
+    · rw [ho0] at ho; cases ho; simp [LiveAt, Live, hr0, isRevoked] at hl
     · rw [ho0] at hn; cases hn
+
+/-- Since fix dd5d9e6: a parent login session (or the OAuth2 session itself) that has reached its
+expiry is refused like a revoked one, before the plugin's next run turns it into `RevokedAt`. -/
+theorem expired_parent_unusable_at_once (e : Entry) (sid p iat ct exp : Nat) (u o : Sess)
+    (hu : e.uats.bind (fun m => lookup m p) = some u) (hx : u.state = .expiresAt exp)
+    (hexp : exp ≤ ct) (ho : lookup e.o2s sid = some o) :
+    o2Check e sid (some p) iat ct = false := by
+  cases h : o2Check e sid (some p) iat ct with
+  | false => rfl
+  | true =>
+    obtain ⟨_, ⟨o', _, _, hpp⟩ | ⟨hn, _⟩⟩ := (o2Check_true_iff e sid (some p) iat ct).mp h
+    · rcases hpp p rfl with ⟨u', hu', hl⟩ | ⟨hu', _⟩
+      · rw [hu] at hu'; cases hu'
+        have := hl.2 exp hx
+        omega
+      · rw [hu] at hu'; cases hu'
+    · rw [ho] at hn; cases hn
 
 /-! ## 3. Histories: revoked stays revoked -/
 
@@ -273,6 +325,7 @@ theorem lookup_uats_applyMod {e : Entry} {m : SMap} {k c : Nat} (cid : Nat) (md 
     rw [lookup_revokeAll, hs]
     simp [revoke_of_revoked hr]
   | setPrimary _ => exact ⟨m, hm, s, hs, hr⟩
+  | updatePrimary _ => exact ⟨m, hm, s, hs, hr⟩
   | addPasskey _ => exact ⟨m, hm, s, hs, hr⟩
   | delPasskey _ => exact ⟨m, hm, s, hs, hr⟩
   | addAttested _ => exact ⟨m, hm, s, hs, hr⟩
@@ -316,6 +369,7 @@ theorem revoked_oauth2_stays_revoked_write (e : Entry) (md : Mod) (ct cid k c : 
     | revoke _ => exact ⟨s, hs, hr⟩
     | purgeUats => exact ⟨s, hs, hr⟩
     | setPrimary _ => exact ⟨s, hs, hr⟩
+    | updatePrimary _ => exact ⟨s, hs, hr⟩
     | addPasskey _ => exact ⟨s, hs, hr⟩
     | delPasskey _ => exact ⟨s, hs, hr⟩
     | addAttested _ => exact ⟨s, hs, hr⟩
@@ -399,6 +453,7 @@ theorem removed_credential_never_usable_again (e : Entry) (md : Mod) (ct cid c k
           unfold KeysNodup revokeAll
           simpa [List.map_map, Function.comp_def] using hn'
         | setPrimary _ => simp only [applyMod, hm, Option.some.injEq] at h0; exact h0 ▸ hn
+        | updatePrimary _ => simp only [applyMod, hm, Option.some.injEq] at h0; exact h0 ▸ hn
         | addPasskey _ => simp only [applyMod, hm, Option.some.injEq] at h0; exact h0 ▸ hn
         | delPasskey _ => simp only [applyMod, hm, Option.some.injEq] at h0; exact h0 ▸ hn
         | addAttested _ => simp only [applyMod, hm, Option.some.injEq] at h0; exact h0 ▸ hn
@@ -426,7 +481,7 @@ theorem removed_credential_never_usable_again (e : Entry) (md : Mod) (ct cid c k
   obtain ⟨_, ⟨o, _, _, hp⟩ | hmiss⟩ := (o2Check_true_iff e' sid (some k) iat ct').mp hchk
   · rcases hp k rfl with ⟨u, hu, hl⟩ | ⟨hu, _⟩
     · have : e'.uats = some m2 := hm2
-      simp [this, hu0] at hu; subst hu; simp [Live, hur0, isRevoked] at hl
+      simp [this, hu0] at hu; subst hu; simp [LiveAt, Live, hur0, isRevoked] at hl
     · have : e'.uats = some m2 := hm2
       simp [this, hu0] at hu
   · exact hmiss
@@ -450,6 +505,23 @@ theorem merge_keeps_revocation (e inc : Entry) (un on tc : Bool) (t k c : Nat) (
     obtain ⟨c', _, hmin, h1, h2⟩ := revoke_dominates mi m hni hn (by omega) k c t (Or.inr h)
     refine ⟨sessReplMerge mi m t, c', ?_, hmin c (Or.inr h), h1, h2⟩
     cases tc <;> simp [step, mergeUats, hm, hi]
+
+/-- The same for OAuth2 sessions (C11's `o2_revoke_dominates`). -/
+theorem merge_keeps_oauth2_revocation (e inc : Entry) (un on tc : Bool) (t k c : Nat)
+    (hn : KeysNodup e.o2s) (hni : KeysNodup inc.o2s) (h : RevAt e.o2s k c) :
+    ∃ c', c' ≤ c ∧ (¬ c' < t → RevAt (step e (.merge inc un on tc t)).o2s k c') ∧
+      (c' < t → lookup (step e (.merge inc un on tc t)).o2s k = none) := by
+  cases on with
+  | false =>
+    obtain ⟨c', _, hmin, h1, h2⟩ := o2_revoke_dominates e.o2s inc.o2s hn hni k c t (Or.inl h)
+    refine ⟨c', hmin c (Or.inl h), ?_, ?_⟩
+    · cases tc <;> simpa [step] using h1
+    · cases tc <;> simpa [step] using h2
+  | true =>
+    obtain ⟨c', _, hmin, h1, h2⟩ := o2_revoke_dominates inc.o2s e.o2s hni hn k c t (Or.inr h)
+    refine ⟨c', hmin c (Or.inr h), ?_, ?_⟩
+    · cases tc <;> simpa [step] using h1
+    · cases tc <;> simpa [step] using h2
 
 /-- What the statement does *not* cover, as a fact about the code: the plugin is not run on an
 incoming replicated entry (`run_pre_repl_incremental`), so a login recorded on another server
